@@ -148,6 +148,27 @@ def _r3(ctx, M, producers):
                       "the candidate loop may end with NoAssignableAddress only when the iterator is exhausted "
                       "(%d exhaustion exit(s); other exits reaching the error: %s)" % (exhausted, bad or "none"))
     ctx.floor("R3", "candidate loops", n, 1)
+    # the candidates examined are the whole pool: nothing between the pool set and the loop may drop elements
+    DROPPERS = ("truncate", "take", "skip", "step_by", "filter", "filter_map", "drain", "split_off", "pop", "remove", "swap_remove", "retain",
+                "dedup", "resize", "take_while", "skip_while", "nth", "chunks", "first", "last", "split_at", "clear")
+    for fid in sorted(producers):
+        body = P.bodies[fid]
+        cfg = cfg_of(body)
+        if not cfg.back_edges():
+            continue
+        has_query_in_loop = any(site.body.id == fid and any(site.bb in cfg.natural_loop(e) for e in cfg.back_edges()) for site in M.sites)
+        if not has_query_in_loop:
+            continue
+        bad = []
+        for x in P.family(fid):
+            for bb, tm in x.calls():
+                nme = callee_name(tm) or ""
+                last = nme.rsplit("::", 1)[-1]
+                if last in DROPPERS and ("Vec" in nme or "Iterator" in nme or "slice" in nme or "HashSet" in nme):
+                    bad.append("%s at %s" % (last, P.rel(tm["sp"])))
+        ctx.check(not bad, "R3", "candidate-list-is-the-whole-pool:%s" % fid.split("::")[-1], ctx.where(body),
+                  "a request may be refused for lack of addresses only after every address of the pool was examined: the candidate list "
+                  "must not be shortened or filtered (%s)" % (bad or "ok"))
 
 
 def _r4(ctx, cg):
